@@ -139,3 +139,18 @@ prop(
     trusted=[A_NET, A_IFACE, A_SYNC, "GIL: single bytecodes are atomic; preemption inside h11/h2/threading internals not modelled"],
     not_decided=["interleavings between lock regions are not enumerated: the obligations are the guarded_by discipline plus per-region contracts, not a schedule exploration", "HTTP/2 state machine shared by threads without a common lock (recorded finding when the HTTP/2 contracts flag it)"],
 )
+
+prop(
+    "C12",
+    title="HTTP/2 streams isolated, bounded, cannot wedge each other",
+    explanation="events are queued only on the stream id they carry (dispatch loop walks h2's list completely, in order, unknown streams dropped) and are handed out FIFO per stream; a stream id is taken only after acquiring a slot, the stream starts with one slot until SETTINGS arrive, SETTINGS move permits by exactly the change of the limit (loop invariant), every registered stream releases its slot exactly once on every exit; no suspension between stream id allocation and HEADERS; wait-for obligations: no blocking call while holding the read lock, no network read while own events are queued; credit of dropped / abandoned DATA",
+    trusted=[A_H2, A_NET, A_SHIELD, A_SYNC],
+    not_decided=["'every other stream runs to completion' as liveness: decided only as absence of wait-for edges under the read lock and of credit leaks"],
+)
+prop(
+    "C13",
+    title="HTTP/2 flow control obeyed, never starves",
+    explanation="_send_stream_data: every frame is a non-empty prefix of the remaining data with len <= min(current stream/connection window, max frame size), the limits read with no suspension point before send_data, sent ++ rest == data (per-iteration step), remaining data shrinks; _wait_for_outgoing_flow returns the positive min of the current limits and always reads the network while blocked; every DATA event handed to the caller has exactly its flow_controlled_length acknowledged and flushed first; 2**24 initial credit on connection and stream",
+    trusted=[A_H2, A_NET, A_SYNC],
+    not_decided=["starvation freedom beyond 'credit is returned for what is consumed and blocked senders read the network'", "h2's own window arithmetic (assumed)"],
+)
